@@ -271,6 +271,10 @@ class Result:
             self.samples.append(case)
 
 
+class WorkerCrash(RuntimeError):
+    """a forked worker of fork_map ended with an exception"""
+
+
 def merge_results(dst: "Result", src: "Result"):
     dst.evaluations += src.evaluations
     dst.hashes |= src.hashes
@@ -348,7 +352,9 @@ def fork_map(n, worker, nproc=None, min_parallel=120, chunk=250):
             else:
                 errors.append(val)
     if errors:
-        raise ToolFailure("parallel worker failed: " + errors[0][-2000:])
+        # not a ToolFailure: the worker ran harness code against the implementation; the runner decides whether an exception
+        # there is a failure of the tool (unchanged source) or of the correspondence (changed source)
+        raise WorkerCrash("parallel worker failed: " + errors[0][-2000:])
     return results
 
 
